@@ -39,11 +39,24 @@ func runC02(r *mon.Run) {
 	}
 
 	// --- IsGreaterThanHalfN on the boundary family ---------------------------
-	r.Require("n:half:=halfN", "n:half:=halfN+1", "n:half:limb-forced", "n:half:true", "n:half:false", "n:half:diff-only-limb-0", "n:half:diff-only-limb-1", "n:half:diff-only-limb-2", "n:half:diff-only-limb-3")
+	r.Require("n:half:=halfN", "n:half:=halfN+1", "n:half:limb-forced", "n:half:limb-relations", "n:half:true", "n:half:false", "n:half:diff-only-limb-0", "n:half:diff-only-limb-1", "n:half:diff-only-limb-2", "n:half:diff-only-limb-3")
 	r.Each("n/half-order", r.N(6000, 300000), func(w *mon.W, i int) {
 		rng := w.Rng
 		var v *big.Int
-		switch i % 8 {
+		switch i % 10 {
+		case 8, 9:
+			// every limb independently below / equal to / above the limb of (n-1)/2
+			v = halfRelated(rng)
+			w.Class("n:half:limb-relations")
+			if rng.Chance(1, 3) {
+				// a 128-bit value (or its negation): the shape of a GLV half
+				l := oracle.Limbs(v)
+				l[2], l[3] = 0, 0
+				v = oracle.FromLimbs(l)
+				if rng.Bool() {
+					v = oracle.NegM(v, m)
+				}
+			}
 		case 6, 7:
 			// the DIFFERENCE to (n-1)/2 has exactly one non-zero 64-bit limb
 			// (forcing a limb of the value itself does not give this: limb 2 and 3
@@ -65,7 +78,7 @@ func runC02(r *mon.Run) {
 				w.Class(fmt.Sprintf("n:half:neg-diff-only-limb-%d", j))
 			}
 		case 0:
-			v = new(big.Int).Add(oracle.HalfN, big.NewInt(int64(i/8%9-4)))
+			v = new(big.Int).Add(oracle.HalfN, big.NewInt(int64(i/10%9-4)))
 		case 1, 2:
 			// (n-1)/2 with one limb forced to 0 / 2^64-1 / +-1
 			l := oracle.Limbs(oracle.HalfN)
